@@ -164,7 +164,7 @@ def case_to_coq(c):
         coq_list([rspan(r) for r in (c["read"] or [])]))
 
 
-HEADER = ("From Coq Require Import List ZArith NArith Bool String Ascii.\nFrom Qryn Require Import model.Spans model.SpansChunk.\n"
+HEADER = ("From Coq Require Import List ZArith NArith Bool String Ascii Uint63.\nFrom Qryn Require Import model.Spans model.SpansChunk model.SpansWire model.SpansStore.\n"
           "Import ListNotations.\nOpen Scope string_scope.\nOpen Scope Z_scope.\n")
 
 
@@ -184,7 +184,11 @@ def cases_file(cases):
     cc = "Definition ccases : list ccase := %s.\n" % coq_list(
         ["(Build_ccase c%d %s %s)" % (c["id"], coq_list([Z(n) for n in c.get("text_lens") or []]),
                                       coq_list(["(%d, %d)" % (a, b) for a, b in c.get("resp") or []])) for c in cases])
-    return HEADER + "\n".join(IN.defs) + "\n" + "\n".join(one) + "\n" + lst + cc
+    wc = "Definition wcases : list wcase := %s.\n" % coq_list(
+        ["(Build_wcase %d (c_in c%d) %s)" % (c["id"], c["id"], coq_list(
+            ["(%d, (%d%%uint63, %d%%uint63))" % (n, fp[0], fp[1]) for n, fp in zip(c.get("pay_lens") or [], c.get("pay_fp") or [])]))
+         for c in cases if c["fmt"] == "otlp"])
+    return HEADER + "\n".join(IN.defs) + "\n" + "\n".join(one) + "\n" + lst + cc + wc
 
 
 def ids(s):
@@ -196,14 +200,16 @@ def eval_text(ck, name, cases_txt):
            "Definition M := Eval vm_compute in mismatches cases.\nPrint M.\n"
            "Definition V := Eval vm_compute in spec_violations cases.\nPrint V.\n"
            "Definition R := Eval vm_compute in regressions cases.\nPrint R.\n"
-           "Definition CM := Eval vm_compute in chunk_mismatches (fun c => psz_texts (cc_lens c)) (filter (fun c => in_ordered (c_in (cc_case c))) ccases).\nPrint CM.\n"
+           "Definition CM := Eval vm_compute in chunk_mismatches (fun c => psz_store (cc_lens c)) ccases.\nPrint CM.\n"
+           "Definition WM := Eval vm_compute in wire_mismatches wcases.\nPrint WM.\n"
+           "Definition WR := Eval vm_compute in wire_roundtrip_failures wcases.\nPrint WR.\n"
            "Definition CV := Eval vm_compute in chunk_spec_violations ccases.\nPrint CV.\n")
     rc, out = ck.coq_eval(name, txt)
     if rc != 0:
         return None, out
     flat = " ".join(out.split())
     res = {}
-    for nm in ("M", "V", "CM", "CV"):
+    for nm in ("M", "V", "CM", "CV", "WM", "WR"):
         m = re.search(r"(?<![A-Z])" + nm + r" = \[(.*?)\]\s*: list Z", flat)
         if not m:
             return None, out
@@ -309,7 +315,7 @@ def run_spans(ck):
                   "case ids: %s; %s" % ([c["id"] for c in changed[:10]], changed[0]["retry_diff"][:300] if changed else ""))
     cases = [c for c in cases if not c.get("panic")]
     byid = {c["id"]: c for c in cases}
-    tot = {"M": [], "V": [], "R": [], "CM": [], "CV": []}
+    tot = {"M": [], "V": [], "R": [], "CM": [], "CV": [], "WM": [], "WR": []}
     # Coq spends ~0.1 s per request elaborating the literal: shards are evaluated by parallel coqc processes
     shard = 100
     heavy = [c for c in cases if size_of(c) > 40000]           # the > 64 KiB / > 1 MiB requests: a shard each
@@ -338,6 +344,20 @@ def run_spans(ck):
                       len(cases), nresp, sum(1 for c in cases if flushed_error(c))), not cm, "mismatching case ids: %s" % cm[:10])
     ck.obligation("spec oracle chunk_spec_ok: every response of an accepted request carries whole spans (its tag rows are those of its trace rows), "
                   "all responses together one trace row per pushed span", not cv, "violating case ids: %s" % cv[:10])
+    # the stored OTLP payload as bytes: SpansWire.enc_span of the model's payload span = proto.Marshal's output (length + two 53-bit
+    # fingerprints of every stored payload), and the round trip dec_span (enc_span s) = s evaluated on every payload of the run
+    wm, wr = tot["WM"], tot["WR"]
+    notlp = sum(len(c.get("pay_fp") or []) for c in cases if c["fmt"] == "otlp")
+    ck.obligation("correspondence: model SpansWire.enc_span (protobuf wire encoding of the stored span) = the bytes of the payload column "
+                  "(length and two 53-bit fingerprints) for %d stored OTLP payloads" % notlp, not wm, "mismatching case ids: %s" % wm[:10])
+    ck.obligation("every stored OTLP payload of the run lies in the domain of dec_enc_span and dec_span (enc_span s) = s evaluates to true",
+                  not wr, "case ids: %s" % wr[:10])
+    if wm and not viol and not mism:
+        w = min((byid[i] for i in wm), key=size_of)
+        ck.violation({"property": PID, "kind": "model/implementation disagree on the bytes of the stored OTLP payload", "case": slim(w),
+                      "payload_lengths": w.get("pay_lens"), "broken": "correspondence SpansWire.enc_span vs proto.Marshal in OTLPDecoder.Decode"},
+                     no_input=True)
+    ck.extra["otlp_payloads_compared_bytewise"] = notlp
     if cv:
         w = min((byid[i] for i in cv), key=size_of)
         ck.violation({"property": PID, "kind": "a span is split between two responses (INSERTs) or lost at a mid-request flush",
